@@ -17,7 +17,10 @@ const (
 	EVConstExceptionClassName       = "异常"
 	EVConstExceptionContentProperty = "内容"
 	EVConstThisVariableName         = "此"
-	MODULE_NAME_MAIN                = "主模块"
+	// the name the main program is registered under. It is no name an import could denote
+	// (a path separator is not accepted in module names): a file 主模块.zn next to the main
+	// file is a module like any other, not the main program importing itself
+	MODULE_NAME_MAIN = "/主模块"
 )
 
 // eval.go evaluates program from generated AST tree with specific scopes
@@ -576,6 +579,10 @@ func evalImportStmt(vm *r.VM, node *syntax.ImportStmt) error {
 		// Continue to import logic below instead of returning
 	case r.LIB_TYPE_VENDOR:
 	case r.LIB_TYPE_CUSTOM:
+		if extLibName == MODULE_NAME_MAIN {
+			// (the main program is no module that could be imported)
+			return zerr.ModuleNotFound(extLibName)
+		}
 		if extModule = vm.FindModuleByName(extLibName); extModule == nil {
 			newModule, err := execAnotherModule(vm, nameInfo)
 			if err != nil {
